@@ -19,7 +19,7 @@
               what /repo does now, measured by the harness on every run; variant_repaired =
               after the proposed fixes).  Value/type theorems hold for EVERY variant.       *)
 From Coq Require Import ZArith QArith Reals List Bool Ring.
-From Verif Require Import Base.Num Base.Vec C04.Model C04.ModelIP C04.Cplx C04.Proofs C04.ProofsIP C04.Instances C04.Refuted.
+From Verif Require Import Base.Num Base.Vec C04.Model C04.ModelIP C04.Cplx Gen.OpTables C04.Tables C04.Proofs C04.ProofsIP C04.Instances C04.Refuted.
 Import ListNotations.
 
 (* T1 (core).  Over ANY commutative ring carried by the Num class (covers R, C, Qc): for every
@@ -216,3 +216,17 @@ Theorem inplace_ignores_out : forall (T : Type) (N : Num T),
     ipp o (pure x) out = pure (denote s x).
 Proof. exact @ProofsIP.build_inplace_sound. Qed.
 Print Assumptions inplace_ignores_out.
+
+(* Tie by REGENERATION.  Gen/OpTables.v is re-emitted on every run from the `__init__` of the
+   17 expression classes (which base-class initialiser is effective, its `linear=` expression
+   and domain argument).  The model's flag and domain computations are exactly what those
+   tables say -- for every object tree -- so an edited `linear=` argument breaks this proof. *)
+Theorem flags_follow_source_table : forall (T : Type) (N : Num T) (vt : variant),
+  v_frvec_lin vt = frvec_lin_of_table ->
+  forall o : oexpr T, olin vt o = olin_tab o.
+Proof. exact @Tables.olin_table. Qed.
+Print Assumptions flags_follow_source_table.
+
+Theorem domains_follow_source_table : forall (T : Type) (o : oexpr T),
+  odom o = odom_step o.
+Proof. exact @Tables.odom_table. Qed.
